@@ -375,6 +375,12 @@ func execStep(env *Env, st *Step) Result {
 		return pathResult(buildPath(st.A).Flatten(st.Tol))
 	case "dash":
 		return pathResult(buildPath(st.A).Dash(st.Offset, st.Dashes...))
+	case "clip":
+		return pathResult(buildPath(st.A).Clip(0, 0, st.W, st.W))
+	case "simplify":
+		return pathResult(buildPath(st.A).SimplifyVisvalingamWhyatt(st.Tol))
+	case "gridsnap":
+		return pathResult(buildPath(st.A).Gridsnap(st.Tol))
 	case "tile":
 		return pathResult(buildPath(st.A).Tile(buildPath(st.B), canvas.SquareCell(st.W)))
 
@@ -492,7 +498,27 @@ func renderStep(env *Env, st *Step) Result {
 		}
 		switch it.Kind {
 		case "path":
-			ctx.SetFillColor(color.RGBA{it.Fill[0], it.Fill[1], it.Fill[2], it.Fill[3]})
+			fill := color.RGBA{it.Fill[0], it.Fill[1], it.Fill[2], it.Fill[3]}
+			other := color.RGBA{it.Stroke[2], it.Fill[0], it.Stroke[1], 255}
+			switch it.Paint {
+			case 1:
+				g := canvas.NewLinearGradient(canvas.Point{X: it.X, Y: it.Y}, canvas.Point{X: it.X + 20, Y: it.Y + 10})
+				g.Add(0, fill)
+				g.Add(1, other)
+				ctx.SetFillGradient(g)
+			case 2:
+				g := canvas.NewRadialGradient(canvas.Point{X: it.X + 5, Y: it.Y + 5}, 0, canvas.Point{X: it.X + 5, Y: it.Y + 5}, 12)
+				g.Add(0, fill)
+				g.Add(0.5, other)
+				g.Add(1, fill)
+				ctx.SetFillGradient(g)
+			case 3:
+				ctx.SetFillPattern(canvas.NewLineHatch(fill, 30, 1.5, 0.3))
+			case 4:
+				ctx.SetFillPattern(canvas.NewCrossHatch(other, 0, 60, 2, 2.5, 0.25))
+			default:
+				ctx.SetFillColor(fill)
+			}
 			ctx.SetStrokeColor(color.RGBA{it.Stroke[0], it.Stroke[1], it.Stroke[2], it.Stroke[3]})
 			ctx.SetStrokeWidth(it.SW)
 			if len(it.Dashes) > 0 {
